@@ -142,7 +142,7 @@ class LocalBioFilter(DefaultBioFilter):
                 if gc_count > self.gc_range[1] * self.observed_length:
                     return False
                 at_count = observed_dna_sequence.count("A") + observed_dna_sequence.count("T")
-                if at_count > (1 - self.gc_range[0]) * self.observed_length:
+                if at_count > self.observed_length - self.gc_range[0] * self.observed_length:
                     return False
 
         return True
